@@ -68,3 +68,17 @@ Fixpoint mismatches_from {A} (ok : A -> bool) (i : nat) (l : list A) : list nat 
   end.
 Definition wc_mismatches (cmp : Z -> bool) (l : list wc_case) : list nat :=
   mismatches_from (wc_case_ok cmp) 0 l.
+
+(* --- duplicate names in the configured list: getWeightedClusterEntry stores the entries in a MAP, so the
+   LAST occurrence of a name wins; the draw bound must be the sum of the STORED weights. --- *)
+Definition dedup_last (cfg : list wcluster) : list wcluster :=
+  fold_right (fun x acc => if existsb (fun y => String.eqb (fst y) (fst x)) acc then acc else x :: acc) [] cfg.
+
+(* a case with the configured list (duplicates allowed) and the draw bound the code really uses *)
+Definition wc_case2 := (list wcluster * Z * Z * string * string)%type.  (* configured, go draw bound, draw, default, got *)
+Definition wc_case2_ok (cmp : Z -> bool) (k : wc_case2) : bool :=
+  match k with (cfg, bound, v, d, got) =>
+    let cs := dedup_last cfg in
+    Z.eqb bound (total cs) && existsb (String.eqb got) (possible cmp cs v d) end.
+Definition wc_mismatches2 (cmp : Z -> bool) (l : list wc_case2) : list nat :=
+  mismatches_from (wc_case2_ok cmp) 0 l.
